@@ -96,6 +96,7 @@ fn git_word(r: &mut Rng) -> String {
         }
         11 => (*r.pick(&["brightred", "BRIGHTBLUE", "brightnormal", "bright-1", "bright0", "bright255", "bright#fff", "bright", "brightbright", "brightblack",
         "no-rmal", "NO-Rmal", "no-normal", "nonormal", "no-no-bold", "nobright", "no-red", "no-", "no", "non", "no-b",
+        "\u{130}talic", "d\u{130}m", "bl\u{130}nk", "STR\u{130}KE", "no-\u{130}talic", "wh\u{130}te", "\u{131}talic", "i\u{307}talic", "\u{17f}trike",
         "+5", "-0", "-2", "256", "1000", "0255", "0007", "00000000000000000012", "0256", "00", "007", "0x10", "1.0", "٣", "１", "+0", "-01", "99999999999999999999"])).to_string(),
         12 => {
             // single-edit mutation of a valid word
@@ -115,7 +116,7 @@ fn git_word(r: &mut Rng) -> String {
             for _ in 0..r.range(1, 4) {
                 s.push(crate::gen::gen_char(r));
             }
-            if s.chars().any(|c| c.is_whitespace() || c == '\u{212a}' || c == '\u{130}') { "é".to_string() } else { s }
+            if s.chars().any(|c| c.is_whitespace() || c == '\u{212a}') { "é".to_string() } else { s }
         }
         14 => (*r.pick(&["#é1", "#aé123", "#€", "#é€é", "#ééé", "#😀ab"])).to_string(),
         _ => (*r.pick(&["brightred", "grey", "default", "none", "underline", "inverse", "no", "no-", "nono-bold", "bold,", "red;"])).to_string(),
@@ -159,6 +160,13 @@ pub fn git_record(seed: u64, n: u64, path: &str) -> Value {
         writeln!(w, "{}", json!({"s":cps(&s),"r":git_result(&s)})).unwrap();
         extra += 1;
         if let Some(t) = neighbour(&s) {
+            writeln!(w, "{}", json!({"s":cps(&t),"r":git_result(&t)})).unwrap();
+            extra += 1;
+        }
+        // ... and the same description with the case of every ASCII letter flipped (what is remembered about one spelling -
+        // an error names the word AS WRITTEN - is not the answer for another)
+        if s.chars().any(|c| c.is_ascii_alphabetic()) {
+            let t: String = s.chars().map(|c| if c.is_ascii_lowercase() { c.to_ascii_uppercase() } else { c.to_ascii_lowercase() }).collect();
             writeln!(w, "{}", json!({"s":cps(&t),"r":git_result(&t)})).unwrap();
             extra += 1;
         }
